@@ -82,7 +82,9 @@ fn gen_formula(rng: &mut Rng, allow_fix: bool, maxnames: u64) -> (GF, String, Ve
     }
     let depth = 1 + rng.below(4) as u32;
     let gf = { let mut g = Gen { rng, names: names.clone(), allow_fix, big_consts: false, max_list: 3 }; g.gen(depth, &HashMap::new()) };
-    let text = Printer { rng, noise: false }.print(&gf);
+    // every third formula is printed with varied separators (line feeds, tabs, CR LF, a lone CR, comments, stray characters)
+    let noisy = rng.chance(1, 3);
+    let text = Printer { rng, noise: noisy }.print(&gf);
     (gf, text, names)
 }
 
@@ -97,7 +99,11 @@ fn gen_ordering(rng: &mut Rng, names: &[String]) -> Option<Vec<u8>> {
         1 => { // permutation
             let mut v = pool.clone();
             for i in (1..v.len()).rev() { let j = rng.below(i as u64 + 1) as usize; v.swap(i, j); }
-            Some(v.join("\n").into_bytes())
+            // one name per line: LF, CR LF, a lone CR, with or without a final line ending, or only a comment after it
+            let sep = *rng.pick(&["\n", "\n", "\r\n", "\r"]);
+            let mut t = v.join(sep);
+            match rng.below(4) { 0 => t.push_str(sep), 1 => t.push_str("\n\"the order\""), _ => {} }
+            Some(t.into_bytes())
         }
         2 => { // strict subset
             let mut v = pool.clone();
@@ -259,20 +265,22 @@ pub fn c11(out: &mut dyn Write, tier: &str, rng: &mut Rng, st: &mut Stats) {
                 crate::formula::Parsed::Err(_) => (String::new(), "ERR".to_string(), "ERR".to_string()),
                 crate::formula::Parsed::Panic(_) => (String::new(), "PANIC".to_string(), "ERR".to_string()),
             };
-            // -r / -o round trip through the real binary
+            // -r / -o round trip through the real binary; the formula through --evaluate, a file or standard input in turn
+            let ch = (i as u64 / 2) % 3;
             let t_args: Vec<String> = vec!["-t".into()];
-            let r1 = run_tool(text.as_bytes(), 0, Some(&ordering), &t_args, "c11");
+            let r1 = run_tool(text.as_bytes(), ch, Some(&ordering), &t_args, "c11");
             let r_args: Vec<String> = vec!["-r".into()];
-            let exported = run_tool(text.as_bytes(), 0, Some(&ordering), &r_args, "c11");
-            let r2 = run_tool(text.as_bytes(), 0, Some(&exported.stdout), &t_args, "c11");
+            let exported = run_tool(text.as_bytes(), ch, Some(&ordering), &r_args, "c11");
+            let r2 = run_tool(text.as_bytes(), ch, Some(&exported.stdout), &t_args, "c11");
             let roundtrip = if r1.class == "ok" && exported.class == "ok" { if r2.class == "ok" && r1.stdout == r2.stdout { "1" } else { "0" } } else { "-" };
             // the printed table under the ordering file against the printed table under the default order: the same
             // function of the same named variables (and the tool must not crash under an ordering it accepts)
-            let r0 = run_tool(text.as_bytes(), 0, None, &t_args, "c11");
+            let r0 = run_tool(text.as_bytes(), ch, None, &t_args, "c11");
             let tab = |r: &Run| -> String { match read_stdout(&r.stdout) {
                 Some(p) => format!("{}|{}", p.header.map(|h| hex_names(&h)).unwrap_or_else(|| "-".to_string()), p.rows.join(";")),
                 None => "UNREADABLE|".to_string() } };
-            writeln!(out, "C11|tables|{}|{}|{}|{}", r0.class, tab(&r0), r1.class, tab(&r1)).unwrap();
+            // … and its columns must stand in the order of the file (the free variables as the library orders them under it)
+            writeln!(out, "C11|tables|{}|{}|{}|{}|{}", r0.class, tab(&r0), r1.class, tab(&r1), if free_o == "ERR" { "-".to_string() } else { free_o.clone() }).unwrap();
             writeln!(out, "C11|order|{}|{}|T:{}|{}|{}|{}|{}|{}|{}|{}|{}", hex(text.as_bytes()), classes_of(&text), hex(&ordering),
                 std::str::from_utf8(&ordering).map(classes_of).unwrap_or_default(), vars_d, res_d, vars_o, res_o, roundtrip, free_d, free_o).unwrap();
             st.hit("cli");
